@@ -1,6 +1,7 @@
 //! C13 (gate function): `Device::check_operation` for every mnemonic x every subset of the
 //! feature flags, against a gate transcribed from the flag documentation.
 use crate::ops::*;
+use crate::refisa::A;
 use crate::roles::*;
 use crate::src::Src;
 use crate::{chk, cov};
@@ -49,8 +50,7 @@ pub fn device_with(mask: u16) -> Device {
 
 /// Is mnemonic `op` available on a core with these missing-feature flags?  Transcribed from the
 /// flag documentation in device.rs and the property text.  (Operand-dependent restrictions —
-/// X/Y pointer forms, `lpm Rd,Z` forms — cannot be decided from the mnemonic alone and are not
-/// part of this gate.)
+/// X/Y pointer forms, `lpm Rd,Z` forms — are `ref_forms` below.)
 pub fn ref_gate(op: &Operation, mask: u16) -> bool {
     let has = |i: u8| (mask >> i) & 1 == 1;
     let (no_mul, no_jmp, tiny1x, no_lpm, no_elpm, no_spm, no_movw, no_break, no_eicall, no_eijmp, avr8l) =
@@ -80,6 +80,144 @@ pub fn ref_gate(op: &Operation, mask: u16) -> bool {
         | Operation::Push
         | Operation::Pop => !tiny1x,
         _ => true,
+    }
+}
+
+/// Operand-dependent part of the gate (flag documentation: NoXreg "No X register", NoYreg
+/// "No Y register", NoLpmX "No LPM Rd, Z or LPM Rd, Z+", NoElpmX likewise for ELPM):
+/// `index` = pointer register of the index operand, if the operand list has one
+/// (0 X, 1 Y, 2 Z); `n_args` = number of operands.
+pub fn ref_forms(op: &Operation, index: Option<u8>, n_args: usize, mask: u16) -> bool {
+    let has = |i: u8| (mask >> i) & 1 == 1;
+    let (no_x, no_y, no_lpmx, no_elpmx) = (has(2), has(3), has(6), has(8));
+    match op {
+        Operation::Lpm => n_args == 0 || !no_lpmx,
+        Operation::Elpm => n_args == 0 || !no_elpmx,
+        Operation::Ld | Operation::St | Operation::Ldd | Operation::Std => match index {
+            Some(0) => !no_x,
+            Some(1) => !no_y,
+            _ => true,
+        },
+        _ => true,
+    }
+}
+
+/// Mnemonics whose availability depends on the operand form (indices into `op_at`):
+/// ld, ldd, st, std, lpm, elpm.
+pub const FORM_OPS: [u8; 6] = [59, 60, 61, 62, 63, 64];
+
+/// `check_operation && check_operands` (what pass 2 consults) for one of the six
+/// form-dependent mnemonics (`which` indexes FORM_OPS) or, `which == 6`, for any other
+/// mnemonic given a worst-case operand list, x every operand shape x every set of <= 3 flags.
+pub fn forms<S: Src>(s: &mut S, which: u8) {
+    if which < 6 {
+        let shape = s.below(13);
+        crate::split!(shape, 0, 13, |sh| forms_shape(s, FORM_OPS[which as usize], sh));
+    } else {
+        let oi = s.below(114);
+        s.assume(oi < 59 || oi > 64);
+        crate::split!(oi, 0, 114, |o| forms_shape(s, o, 4));
+    }
+}
+
+/// shape 0: no operands; 1..=12: `Rd, <index>` (for st/std: `<index>, Rr`) with
+/// pointer register (shape-1)/4 (X, Y, Z) and form (shape-1)%4 (plain, post-increment,
+/// pre-decrement, +displacement)
+fn forms_shape<S: Src>(s: &mut S, oi: u8, shape: u8) {
+    let count = s.below(4);
+    crate::split!(count, 0, 4, |c| forms_n(s, oi, shape, c));
+}
+
+fn forms_n<S: Src>(s: &mut S, oi: u8, shape: u8, count: u8) {
+    s.role(H_C13_GATE, oi as u32);
+    let op = op_at(oi);
+    let (dev, mask) = device_of(s, count);
+    let q = s.below(64) as i64;
+    let (index, n_args) = if shape == 0 { (None, 0usize) } else { (Some((shape - 1) / 4), 2usize) };
+    let index_first = matches!(op, Operation::St | Operation::Std);
+    let ix = A::X(index.unwrap_or(2), (shape.wrapping_sub(1)) % 4, q);
+    let r = A::R(16);
+    let arr = if index_first {
+        [to_ops(&ix, KForm::Const), to_ops(&r, KForm::Const), filler()]
+    } else {
+        [to_ops(&r, KForm::Const), to_ops(&ix, KForm::Const), filler()]
+    };
+    let mut args = ArgVec::new(arr, n_args);
+    let got_op = dev.check_operation(&op);
+    let got_forms = args.with(|v| dev.check_operands(&op, v));
+    let want = ref_gate(&op, mask) && ref_forms(&op, index, n_args, mask);
+    cov!(got_op && got_forms, "!form allowed on some core");
+    #[cfg(not(kani))]
+    {
+        s.note_s("op", &op_text(oi));
+        s.note_s("operands", &if n_args == 0 { String::new() } else if index_first { format!("{}, r16", arg_text(&ix)) } else { format!("r16, {}", arg_text(&ix)) });
+        s.note("mask", mask as i64);
+        s.note("check_operation", got_op as i64);
+        s.note("check_operands", got_forms as i64);
+        s.note("reference", want as i64);
+        let text = if n_args == 0 { op_text(oi) } else if index_first { format!("{} {}, r16", op_text(oi), arg_text(&ix)) } else { format!("{} r16, {}", op_text(oi), arg_text(&ix)) };
+        api_forms(&op, &text, index, n_args);
+    }
+    chk!(s, (got_op && got_forms) == want, "C13: device gate (mnemonic and operand form) differs from the feature-flag documentation");
+    core::mem::forget(dev);
+}
+
+/// a device with `count` (<= 3) symbolic feature flags and its flag mask
+fn device_of<S: Src>(s: &mut S, count: u8) -> (Device, u16) {
+    let f0 = s.below(16);
+    let f1 = s.below(16);
+    let f2 = s.below(16);
+    s.assume(f0 < f1 && f1 < f2);
+    let mut mask: u16 = 0;
+    let mut flags: Vec<DisabledOptions> = Vec::with_capacity(3);
+    if count > 0 {
+        flags.push(flag_at(f0));
+        mask |= 1 << f0;
+    }
+    if count > 1 {
+        flags.push(flag_at(f1));
+        mask |= 1 << f1;
+    }
+    if count > 2 {
+        flags.push(flag_at(f2));
+        mask |= 1 << f2;
+    }
+    let mut dev = Device::new(0);
+    dev.disable_opts = avra_lib::vmap::BTreeSet::from_sorted_vec(flags);
+    (dev, mask)
+}
+
+#[cfg(not(kani))]
+fn api_forms(op: &Operation, text: &str, index: Option<u8>, n_args: usize) {
+    use avra_lib::device::DEVICES;
+    let mut confirmed = 0;
+    let mut names: Vec<&'static str> = DEVICES.iter().map(|(k, _)| *k).collect();
+    names.sort();
+    for name in names {
+        let dev = DEVICES.get(name).unwrap();
+        let mut mask = 0u16;
+        for i in 0..16u8 {
+            if dev.disable_opts.contains(&flag_at(i)) {
+                mask |= 1 << i;
+            }
+        }
+        let want = ref_gate(op, mask) && ref_forms(op, index, n_args, mask);
+        let src = format!(".device {}\n{}\n", name, text);
+        let r = std::panic::catch_unwind(|| avra_lib::builder::build_str(&src));
+        let ok = matches!(r, Ok(Ok(_)));
+        // a legal form only: a build failure for another reason proves nothing
+        let legal = matches!(std::panic::catch_unwind(|| avra_lib::builder::build_str(&format!("{}\n", text))), Ok(Ok(_)));
+        if legal && ok != want {
+            if confirmed < 3 {
+                println!("NOTE: api_source={:?} builds={} reference_allows={}", src, ok, want);
+            }
+            confirmed += 1;
+        }
+    }
+    if confirmed > 0 {
+        println!("API-CONFIRMED");
+    } else {
+        println!("API-NOT-CONFIRMED");
     }
 }
 
